@@ -44,7 +44,7 @@ import (
 type e2eScenario struct {
 	Name   string `json:"e2e"`
 	Format string `json:"format"` // ts | fmp4
-	Kind   string `json:"kind"`   // vod: complete playlist; live: one more segment per reload; burst: live, then 5 more segments + ENDLIST at once
+	Kind   string `json:"kind"`   // vod: complete playlist; live: one more segment per reload; burst: live, then 5 more segments + ENDLIST at once; cancel: see e2eCancelExecute
 	N      int    `json:"n"`      // vod: segments listed; live: segments to deliver before Close
 	Slow   bool   `json:"slow"`
 	// fMP4 only: moof+mdat pairs per media segment (0 = 1), as a Low-Latency packager produces them
@@ -83,6 +83,9 @@ func e2eScenarios(tier string) []e2eScenario {
 		{Name: "fmp4-vod-3parts-slow-lastpart", Format: "fmp4", Kind: "vod", N: 6, Slow: true, Parts: 3, HoldLastPart: true},
 		{Name: "fmp4-vod-2parts-slow-firstpart", Format: "fmp4", Kind: "vod", N: 6, Slow: true, Parts: 2},
 		{Name: "fmp4-live-4parts-slow-lastpart", Format: "fmp4", Kind: "live", N: 6, Slow: true, Parts: 4, HoldLastPart: true},
+		// "both return promptly on cancellation", end to end: Close while the MPEG-TS stream processor is blocked
+		// pushing into the full sample queue of a track whose processor sleeps between two samples
+		{Name: "ts-vod-cancel-full-sample-queue", Format: "ts", Kind: "cancel", N: 150},
 	}
 	if tier == "thorough" {
 		s = append(s,
@@ -443,9 +446,240 @@ func e2eExecute(sc e2eScenario) e2eResult {
 	return res
 }
 
+// ---------- cancellation with a full sample queue ----------
+//
+// One VOD MPEG-TS segment with sc.N H264 access units 200 ms apart. The client plays in real time
+// (clientTrack.handleData sleeps until each sample is due), the stream processor demultiplexes the whole
+// segment at once and pushes every access unit into the track processor's queue, which holds
+// clientMPEGTSSampleQueueSize (100) entries: after about a hundred pushes it blocks in the push. Close() is
+// called 100 ms after the third sample reached the data callback, i.e. while the track processor sleeps
+// between the third and the fourth sample and the stream processor is blocked in the push.
+//
+// Oracle (property text: "both return promptly on cancellation", the pipeline seen end to end): Wait()
+// reports, and afterwards no goroutine of the client is left. No timeout is used for the verdict: Wait() is
+// declared stuck when, after Close, three stop-the-world goroutine dumps 50 ms apart show every goroutine of
+// the client blocked (channel operation, select on an already cancelled context, WaitGroup) with an
+// unchanged set of goroutines and Wait() still silent - nothing can move by itself any more. A 10 s
+// watchdog turns anything else into an infrastructure error (reported after three reproductions).
+
+func e2eTSLongSegment(n int) []byte {
+	var buf bytes.Buffer
+	tr := &mpegts.Track{Codec: &mpegts.CodecH264{}}
+	w := &mpegts.Writer{W: &buf, Tracks: []*mpegts.Track{tr}}
+	if err := w.Initialize(); err != nil {
+		panic(err)
+	}
+	for i := 0; i < n; i++ {
+		au := [][]byte{{1, 4, 5, 6}}
+		if i%25 == 0 {
+			au = [][]byte{e2eSPS, e2ePPS, {5, 1}}
+		}
+		dts := int64(90000 + i*18000) // 200 ms
+		if err := w.WriteH264(tr, dts, dts, au); err != nil {
+			panic(err)
+		}
+	}
+	return buf.Bytes()
+}
+
+type e2eCancelTransport struct{ seg []byte }
+
+func (t *e2eCancelTransport) RoundTrip(req *http.Request) (*http.Response, error) {
+	var body []byte
+	status := 200
+	switch req.URL.Path {
+	case "/index.m3u8":
+		body = []byte("#EXTM3U\n#EXT-X-VERSION:3\n#EXT-X-MEDIA-SEQUENCE:0\n#EXT-X-TARGETDURATION:30\n#EXT-X-PLAYLIST-TYPE:VOD\n#EXTINF:30,\nseg0.ts\n#EXT-X-ENDLIST\n")
+	case "/seg0.ts":
+		body = t.seg
+	default:
+		status = 404
+	}
+	return &http.Response{
+		StatusCode: status, Status: fmt.Sprintf("%d", status), Proto: "HTTP/1.1", ProtoMajor: 1, ProtoMinor: 1,
+		Header: http.Header{}, Body: io.NopCloser(bytes.NewReader(body)), ContentLength: int64(len(body)), Request: req,
+	}, nil
+}
+
+// the goroutines that have a gohlslib frame: sorted "id state top-gohlslib-frame" lines, and whether all of
+// them are blocked
+func e2eClientGoroutines() (lines []string, atRest bool) {
+	buf := make([]byte, 1<<20)
+	n := runtime.Stack(buf, true)
+	atRest = true
+	for _, blk := range bytes.Split(buf[:n], []byte("\n\n")) {
+		m := gidRe.FindSubmatch(blk)
+		if m == nil || !bytes.Contains(blk, []byte("github.com/bluenviron/gohlslib/v2.")) {
+			continue
+		}
+		h := string(blk[:bytes.IndexByte(blk, '\n')])
+		st := h[strings.Index(h, "[")+1:]
+		if i := strings.IndexAny(st, ",]"); i >= 0 {
+			st = st[:i]
+		}
+		switch st {
+		case "select", "chan receive", "chan send", "sync.Cond.Wait", "sync.WaitGroup.Wait", "semacquire",
+			"select (no cases)", "chan receive (nil chan)":
+		default:
+			atRest = false
+		}
+		frame := ""
+		for _, l := range strings.Split(string(blk), "\n") {
+			if strings.HasPrefix(l, "github.com/bluenviron/gohlslib/v2.") {
+				frame = l[len("github.com/bluenviron/gohlslib/v2."):]
+				if i := strings.LastIndex(frame, "("); i > 0 {
+					frame = frame[:i]
+				}
+				break
+			}
+		}
+		lines = append(lines, string(m[1])+" ["+st+"] "+frame)
+	}
+	sortStrings(lines)
+	return lines, atRest
+}
+
+func sortStrings(l []string) {
+	for i := 1; i < len(l); i++ {
+		for j := i; j > 0 && l[j] < l[j-1]; j-- {
+			l[j], l[j-1] = l[j-1], l[j]
+		}
+	}
+}
+
+type e2eCancelResult struct {
+	stuck     string // Wait() never reports
+	leftover  string // goroutines of the client left after Wait() reported
+	infra     string
+	delivered int
+}
+
+func e2eCancelExecute(sc e2eScenario) e2eCancelResult {
+	var res e2eCancelResult
+	tr := &e2eCancelTransport{seg: e2eTSLongSegment(sc.N)}
+	var mu sync.Mutex
+	delivered := 0
+	third := make(chan struct{})
+	cl := &gohlslib.Client{
+		URI:                       "http://stub.invalid/index.m3u8",
+		HTTPClient:                &http.Client{Transport: tr},
+		OnDownloadPrimaryPlaylist: func(string) {},
+		OnDownloadStreamPlaylist:  func(string) {},
+		OnDownloadSegment:         func(string) {},
+		OnDownloadPart:            func(string) {},
+		OnDecodeError:             func(error) {},
+	}
+	cl.OnTracks = func(tracks []*gohlslib.Track) error {
+		for _, t := range tracks {
+			if _, ok := t.Codec.(*codecs.H264); ok {
+				cl.OnDataH26x(t, func(int64, int64, [][]byte) {
+					mu.Lock()
+					delivered++
+					if delivered == 3 {
+						close(third)
+					}
+					mu.Unlock()
+				})
+			}
+		}
+		return nil
+	}
+	if err := cl.Start(); err != nil {
+		res.infra = "Client.Start: " + err.Error()
+		return res
+	}
+	select {
+	case <-third:
+	case err := <-cl.Wait():
+		res.infra = fmt.Sprintf("the client ended before the third sample: %v", err)
+		return res
+	case <-time.After(10 * time.Second):
+		res.infra = "watchdog: the third sample did not arrive within 10 s"
+		cl.Close()
+		return res
+	}
+	time.Sleep(100 * time.Millisecond) // the track processor now sleeps until the fourth sample is due (200 ms spacing)
+	before, _ := e2eClientGoroutines()
+	cl.Close()
+	reported := false
+	var last []string
+	same := 0
+	deadline := time.Now().Add(10 * time.Second)
+	for !reported {
+		select {
+		case <-cl.Wait():
+			reported = true
+			continue
+		case <-time.After(50 * time.Millisecond):
+		}
+		lines, atRest := e2eClientGoroutines()
+		if atRest && len(lines) > 0 && strings.Join(lines, "|") == strings.Join(last, "|") {
+			same++
+		} else {
+			same = 0
+		}
+		last = lines
+		if same >= 3 {
+			res.stuck = fmt.Sprintf("Close() was called 100 ms after the third of %d samples (200 ms apart) went through the data callback; Wait() does not report: "+
+				"in four consecutive goroutine dumps 50 ms apart every goroutine of the client is blocked and nothing changes: %v (before Close: %v)", sc.N, lines, before)
+			break
+		}
+		if time.Now().After(deadline) {
+			res.infra = fmt.Sprintf("watchdog: 10 s after Close Wait() has not reported and the client is not at rest: %v", lines)
+			break
+		}
+	}
+	mu.Lock()
+	res.delivered = delivered
+	mu.Unlock()
+	if reported {
+		// every routine of the pool has been joined before Wait() can report; give the reporting goroutine
+		// itself a moment to return
+		var lines []string
+		for i := 0; i < 40; i++ {
+			lines, _ = e2eClientGoroutines()
+			if len(lines) == 0 {
+				break
+			}
+			time.Sleep(25 * time.Millisecond)
+		}
+		if len(lines) != 0 {
+			res.leftover = fmt.Sprintf("Wait() reported after Close, but goroutines of the client are still there 1 s later: %v", lines)
+		}
+	}
+	return res
+}
+
 // run every scenario; a hang counts only if it reproduces three times
 func e2eLeg(scs []e2eScenario, dist map[string]int) (fails []failure, errs []string, n int) {
 	for _, sc := range scs {
+		if sc.Kind == "cancel" {
+			var cr e2eCancelResult
+			for try := 0; try < 3; try++ {
+				cr = e2eCancelExecute(sc)
+				if cr.infra == "" {
+					break
+				}
+				dist["e2e:watchdog-retry"]++
+			}
+			n++
+			if cr.infra != "" {
+				errs = append(errs, "e2e scenario "+sc.Name+": "+cr.infra)
+				continue
+			}
+			dist["e2e:scenario:"+sc.Name]++
+			dist["e2e:cancel:samples-delivered-before-close"] += cr.delivered
+			in, _ := json.Marshal(sc)
+			if cr.stuck != "" {
+				fails = append(fails, failure{Signature: "C20:cancel:mpegts-sample-queue-full:wait-never-reports",
+					What: "real Client, scenario " + sc.Name + ": " + cr.stuck, Input: in, trad: true})
+			}
+			if cr.leftover != "" {
+				fails = append(fails, failure{Signature: "C20:cancel:mpegts-sample-queue-full:goroutines-left",
+					What: "real Client, scenario " + sc.Name + ": " + cr.leftover, Input: in, trad: true})
+			}
+			continue
+		}
 		var res e2eResult
 		for try := 0; try < 3; try++ {
 			res = e2eExecute(sc)
